@@ -1,4 +1,4 @@
-#!/usr/bin/env python3
+#!/verif/.venv/bin/python
 """Regenerates MANIFEST.json from the table below (keeps it valid and in sync with the harness modules)."""
 import json, os
 HERE = os.path.dirname(os.path.abspath(__file__))
@@ -6,15 +6,31 @@ TITLES = {}
 for l in open(os.path.join(HERE, "properties.jsonl")):
     d = json.loads(l); TITLES[d["id"]] = d["title"]
 
-# property -> (level text, level note, technique)
-CLAIMS = {
- "C04": ("Bounded symbolic model checking of the real create path (seal_file_path, generator.append_file_hash, "
-         "history lookups, _validate_new_hash_list, writer+reader) over all sequences of G generations x every non-empty "
-         "format subset x symbolic content versions; decision tree exhausted by z3; counterexamples replayed on the real CLI.",
-         "Digest algorithms modelled as injective uninterpreted functions; lxml/OS replaced by models (listed in evidence); "
-         "bounds: G<=3 (quick) / 4 (thorough) generations, 3-4 formats, one file.",
-         "symbolic execution of the real Python code with proxy objects; z3 decides every branch; exhaustive DFS within bounds"),
-}
+import sys, importlib
+sys.path.insert(0, HERE)
+NOTE = ("Trusted base: digest algorithms modelled as injective uninterpreted functions (collision-freeness), lxml / OS / clock "
+        "replaced by the models listed under coverage.stubs of the evidence; click option parsing only exercised in real replays; "
+        "bounds per harness are in the evidence (coverage.harnesses[*].bounds) and nothing is claimed outside them.")
+TECH = "symbolic execution of the real Python code on proxy values (pse); z3 decides every branch; exhaustive DFS within stated bounds; counterexamples replayed on the real CLI"
+
+def claim(pid):
+    try:
+        mod = importlib.import_module("verif.harness.%s" % pid.lower())
+    except ModuleNotFoundError:
+        return None
+    hs = mod.harnesses("quick")
+    text = ("Bounded symbolic model checking of the real /repo/ascmhl code (decision tree exhausted by z3, no unknown answers; "
+            "every counterexample is replayed against the real CLI before it is reported). Harnesses: "
+            + " | ".join("%s: %s" % (h.name, h.what) for h in hs))
+    extra = getattr(mod, "LEVEL_NOTE", "")
+    return text, NOTE + (" " + extra if extra else ""), getattr(mod, "TECHNIQUE", TECH)
+
+CLAIMS = {}
+for _l in open(os.path.join(HERE, "properties.jsonl")):
+    _pid = json.loads(_l)["id"]
+    _c = claim(_pid)
+    if _c:
+        CLAIMS[_pid] = _c
 PENDING = "check not built yet in this revision (work in progress, see DESIGN.md section 3)"
 
 def main():
